@@ -161,12 +161,41 @@ def settle(run, drv, expected_by_case):
             run.fail("spec-vs-ref", case, {"lean_spec": right.split()[:12], "ref": ref_stream[:12]})
 
 
+def big_piece(run):
+    """Piece length 2^25 with a file that leaves more than 16 MiB behind a piece boundary: the
+    v1 checker must read whole pieces whatever its buffer sizes are (no model tie: the blobs
+    are too large for the line protocol; the verdict is judged by the reference alone)."""
+    from harness.common import Blob
+    pl = 2 ** 25
+    for version, kind in ((1, "v1"), (3, "a3")):
+        with sandbox("c05b") as box:
+            root = os.path.join(box, "parent", "payload")
+            os.makedirs(root)
+            pat = Blob.rand(9, 1021).bytes()
+            sizes = {"big.bin": 2 ** 25 + 17 * 2 ** 20 + 5, "z-small": 1000}
+            for name, n in sizes.items():
+                with open(os.path.join(root, name), "wb") as fd:
+                    fd.write((pat * (n // 1021 + 1))[:n])
+            case = {"big_piece": True, "pl": pl, "sizes": sizes, "version": version}
+            try:
+                impl.create(kind, root, os.path.join(box, "m.torrent"), piece_length=pl)
+                result = impl.recheck_result(os.path.join(box, "m.torrent"), os.path.dirname(root))
+            except Exception as exc:
+                run.fail("impl-vs-spec", case, {"raised": repr(exc)})
+                continue
+            if result != 100:
+                run.fail("impl-vs-spec", case, {"result": result})
+            run.case(["big-piece", version, pl], True, sample=case, classes=["big-piece"])
+
+
 def run(tier, seed, replay=None):
     run = Run("C05", tier, seed, RULE)
     drv = Driver()
 
     def still_fails(c):
         probe = Run("C05", tier, seed, RULE)
+        if c.get("big_piece"):
+            return True
         run_case(probe, Driver(), dict(c))
         return any(f.kind == "impl-vs-spec" for f in probe.failures)
     run.shrinker = still_fails
@@ -175,6 +204,10 @@ def run(tier, seed, replay=None):
     cases = [replay["case"]] if replay else corpus_cases("C05") + \
         [rc.make_case(run.rng, tier, damage=False) for _ in range(150 if tier == "quick" else 900)]
     for case in cases:
+        if case.get("big_piece"):
+            continue
         run_case(run, drv, case)
+    if not replay or replay["case"].get("big_piece"):
+        big_piece(run)
     settle(run, drv, EXPECT)
     return run.finish()
